@@ -574,6 +574,13 @@ class _KInterp(AbsInt):
         if e.attr in MESSAGE_INT_FIELDS:
             # inductive hypothesis: numeric message fields are int (or None)
             return join(INT, NONE)
+        if e.attr == "_messages" and "Message" in eng.p.classes:
+            # representation invariant of the sequence classes: the event list holds Message objects
+            return LIST(INST("Message"))
+        if e.attr == "key" and "Key" in eng.p.enums:
+            return join(INST("Key"), NONE)
+        if e.attr == "message_type" and "MessageType" in eng.p.enums:
+            return join(INST("MessageType"), NONE)
         if isinstance(e.value, ast.Name) and e.value.id == "self" and self.fi.cls:
             k = eng.attr_lookup(self.fi.cls, e.attr)
             if k is not None:
